@@ -138,12 +138,16 @@ def cases_for(ctx, deep):
     for cls in ('Color488Code', 'Color666ToricCode'):
         for s in ((1, 2), (2, 1), (2, 3), (3, 2)):
             cases.append({'class': cls, 'size': list(s), 'deform': [None, {}], 'nonsquare': True})
+    # inside the supported family, beyond the table bound: a known rank deficiency
+    cases.append({'class': 'HollowRhombicCode', 'size': [3, 6, 6], 'deform': [None, {}], 'large_hollow': True})
     return cases
 
 
 def match_key(c):
     if c.get('nonsquare'):
         return {'class': c['class'], 'size_class': 'L_x != L_y'}
+    if c.get('large_hollow'):
+        return {'class': c['class'], 'size_class': 'some L_i >= 6'}
     return {'class': c['class'], 'size': c['size'], 'deform': c['deform'][0], 'reuse': bool(c.get('reuse'))}
 
 
@@ -153,7 +157,7 @@ def oracle(ctx, deep=False, broken=None):
     # one replay per class is enough
     seen, out = set(), []
     for f in fails:
-        k = (f['input']['class'], bool(f['input'].get('nonsquare')))
+        k = (f['input']['class'], bool(f['input'].get('nonsquare')), bool(f['input'].get('large_hollow')))
         if k in seen:
             continue
         seen.add(k)
